@@ -181,6 +181,65 @@ def shapes_for(ctx, kinds, isenv):
     return recs
 
 
+PAIR_CFG = 'CONSTANTS\n  Seps = {%s}\n  Ctxs = {%s}\nSPECIFICATION Spec\nINVARIANT Emit\nCHECK_DEADLOCK FALSE\n'
+
+
+def shape_text(sig, how):
+    out = []
+    for a in sig:
+        k = a['k']
+        if k == 'm':
+            out.append('{}' if how == 'empty' else '{x}')
+        elif k == 'o':
+            out.append('[]' if how == 'empty' else '[x]')
+        elif k == 's':
+            out.append('' if how == 'empty' else '*')
+        elif k in ('r', 'd'):
+            out.append(chr(a['a']) + ('' if how == 'empty' else 'x') + chr(a['b']))
+        elif k == 'v':
+            out.append('{}' if how == 'empty' else '|x|')
+        elif k == 't':
+            out.append('' if how == 'empty' else chr(a['a']))
+    return ''.join(out)
+
+
+def pair_documents(ctx, quick):
+    from . import l2tspec
+    d = contexts.describe('default')
+    tdb = l2tspec.textdb()
+    names = [('macro', sp.macroname) for sp in tdb.iter_macro_specs() if callable(sp.simplify_repl)] + \
+            [('env', sp.environmentname) for sp in tdb.iter_environment_specs() if callable(sp.simplify_repl)]
+    SEP = {'none': '', 'space': ' ', 'par': '\n\n', 'comment': '%c\n'}
+    seps = ['none', 'par'] if quick else ['none', 'space', 'par', 'comment']
+    ctxs = ['top'] if quick else ['top', 'in-group', 'in-math']
+    recs = []
+    r = common.run_tlc('CallPairs', PAIR_CFG % (', '.join('"%s"' % s for s in seps), ', '.join('"%s"' % c for c in ctxs)),
+                       workers=1, timeout=600, on_record=recs.append)
+    ctx.add_tlc(r, 'CallPairs: shapes of two calls in one document')
+    common.tlc_must_pass(r, 'CallPairs')
+
+    def call(kind, name, how):
+        if kind == 'macro':
+            sig = d['macros'].get(name, [])
+            return '\\' + name + shape_text(sig, how) + ('' if sig or not name[-1:].isalpha() else '{}')
+        e = d['envs'].get(name, dict(args=[], body='nodes'))
+        sig = e['args'] if e['body'] != 'legacyverb' else []
+        return '\\begin{%s}%s%s\\end{%s}' % (name, shape_text(sig, how), '' if how == 'empty' else 'x', name)
+    work = []
+    for (ka, na) in names:
+        for (kb, nb) in names:
+            for sh in recs:
+                doc = call(ka, na, sh['fa']) + SEP[sh['sep']] + call(kb, nb, sh['fb'])
+                if sh['ctx'] == 'in-group':
+                    doc = '{' + doc + '}'
+                elif sh['ctx'] == 'in-math':
+                    doc = '$' + doc + '$'
+                work.append((doc, 'pair:%s,%s' % (na, nb)))
+    ctx.counters['pair_documents'] = len(work)
+    ctx.log('pairs: %d names with a function replacement, %d shapes, %d documents' % (len(names), len(recs), len(work)))
+    return work
+
+
 def run(ctx):
     quick = ctx.tier == 'quick'
     ctx.rule = ('(1) every string of <= K atoms over the context alphabets (tolerant parse, 128 option sets each); (2) every '
@@ -229,6 +288,9 @@ def run(ctx):
     for sp in list(pc.pstate.specials_of('default')) + [s.specials_chars for s in l2tspec.textdb().iter_specials_specs()]:
         for c in ('top', 'in-textbf', 'in-math', 'arg-of-emph'):
             work.append((in_context(sp, sp, c), 'specials:' + repr(sp)))
+    # (2b) ordered pairs of names whose text replacement is a function (state carried from one call to a later one)
+    work += pair_documents(ctx, quick)
+    npairs = len(work)
     # (3) name soups
     rnd = random.Random(ctx.seed)
     d = contexts.describe('default')
